@@ -15,7 +15,7 @@ ORD = {'big': Endian.Big, 'little': Endian.Little}
 ADD = {'u8': 'add_8bit_uint', 'i8': 'add_8bit_int', 'u16': 'add_16bit_uint', 'i16': 'add_16bit_int',
        'u32': 'add_32bit_uint', 'i32': 'add_32bit_int', 'u64': 'add_64bit_uint', 'i64': 'add_64bit_int',
        'f16': 'add_16bit_float', 'f32': 'add_32bit_float', 'f64': 'add_64bit_float',
-       'bits': 'add_bits', 'str': 'add_string'}
+       'bits': 'add_bits', 'str': 'add_string', 'text': 'add_string'}
 DEC = {k: v.replace('add_', 'decode_') for k, v in ADD.items()}
 KINDS = sorted(ADD)
 
@@ -57,6 +57,10 @@ def gen_item(r):
     if k == 'bits':
         n = 8 * r.randint(1, 3)
         return [k, [r.random() < 0.5 for _ in range(n)]]
+    if k == 'text':
+        # text strings (str, not bytes): ASCII, Latin-1, BMP and astral code points -> 1..4 UTF-8 bytes per character
+        return [k, [r.choice([r.randint(0x20, 0x7E), r.randint(0xA1, 0xFF), r.randint(0x100, 0x7FF), r.randint(0x800, 0xD7FF), r.randint(0x10000, 0x10FFFF)])
+                    if r.random() < 0.5 else r.randint(0x20, 0x7E) for _ in range(r.randint(0, 7))]]
     return [k, list(bytes(r.randrange(256) for _ in range(r.randint(0, 9))))]
 
 
@@ -104,8 +108,8 @@ def check(run, case):
                     got = []
                     for _ in range(len(v) // 8):
                         got += d.decode_bits()
-                elif k == 'str':
-                    got = d.decode_string(len(v))
+                elif k in ('str', 'text'):
+                    got = d.decode_string(len(P.layout(k, v, bo, wo)))
                 else:
                     got = getattr(d, DEC[k])()
             except Exception as e:  # noqa
@@ -145,7 +149,7 @@ def run(run):
                 res = check(run, case)
                 for k, _ in items:
                     run.count('kind:%s:%s/%s' % (k, bo, wo))
-                run.case(h64(repr(case)), any(k not in ('u8', 'i8', 'str', 'bits') for k, _ in items),
+                run.case(h64(repr(case)), any(k not in ('u8', 'i8', 'str', 'text', 'bits') for k, _ in items),
                          sample=dict(case, odd_length=bool(len(P.registers_of(b'')) == 0 and sum(len(P.layout(k, P.value_of(k, raw), bo, wo)) for k, raw in items) % 2),
                                      verdict='held' if res else 'differs'),
                          sample_class=(bo, wo, len(items) > 3))
